@@ -278,7 +278,12 @@ class Buildable(Generic[T], metaclass=abc.ABCMeta):
             f'Unexpected type received for the argument name: {key!r}'
         )
 
+    parameter_names = list(self.__signature_info__.parameters)
     for name, tags in tag_type.find_tags_from_annotations(fn_or_cls).items():
+      param = self.__signature_info__.parameters.get(name)
+      if param is not None and param.kind == param.POSITIONAL_ONLY:
+        # Positional-only arguments (and their tags) are keyed by index.
+        name = parameter_names.index(name)
       self.__argument_tags__[name].update(tags)
       self.__argument_history__.add_updated_tags(
           name, self.__argument_tags__[name]
